@@ -94,7 +94,10 @@ func setAt(root any, p treePath, val any, remove bool) any {
 
 var c17Numbers = []string{"-1", "0", "1", "4294967295", "4294967296", "9007199254740993", "-9007199254740993", "9223372036854775807",
 	"9223372036854775808", "-9223372036854775808", "-9223372036854775809", "18446744073709551615", "18446744073709551616", "1.5", "-0.5", "1.0", "0.0",
-	"2147483648", "1180591620717411303424"}
+	"2147483648", "1180591620717411303424",
+	// values whose float64 rounding crosses a bound or the integer test
+	"4294967295.00000001", "4294967294.99999999", "9223372036854775807.5", "0.99999999999999999", "1.0000000000000000001", "-0.00000000000000000001",
+	"9223372036854775806", "-9223372036854775807", "4294967295.0", "4294967296.0", "1e2", "1E+2", "12e-1"}
 
 func c17Replacement(t *rapid.T, label string, old any) any {
 	switch rapid.IntRange(0, 9).Draw(t, label+"kind") {
